@@ -253,6 +253,14 @@ def check_intrusive_list(ctx, unit, cls="frg::_list::intrusive_list"):
                     bad.append("a path links only one direction (writes %s)" % sorted(s))
                 if not {"other._front:=null", "other._back:=null"} <= s:
                     bad.append("a path leaves the source list non-empty (writes %s)" % sorted(s))
+            # "takes over the tail": whatever splice() stores into its own tail is the source list's tail
+            from . import rules_atomic as RA_
+            for n in f.events():
+                w = write_of(n)
+                if w and w[0] == ("this", "_back") and w[1] is not None:
+                    v = RA_.resolve_local(f, std_unwrap(w[1]))
+                    if path(v) != (root, "_back") and path(std_unwrap(w[1])) != (root, "_back"):
+                        bad.append("the tail is set to %s at %s, not to the tail of the spliced list" % (canon(std_unwrap(w[1])).split("#")[0], n.loc))
             ctx.inst("H.list-splice", "%s::splice" % cls, not bad and len(sets) >= 2, f.loc,
                      "; ".join(sorted(set(bad))) if bad else "%d paths examined" % len(sets), f)
 
